@@ -16,7 +16,10 @@ def config(tier):
     return {
         "hashseeds": [0, 1] if q else [0, 1, 2, 3, 4, 5, 6, 7],
         "families": ["G1", "G2", "W"],
-        "mc": [{"module": "MCLimitFanin", "cfg": "MCLimitFanin", "workers": 4, "timeout": 900}],
+        "mc": [{"module": "MCLimitFanin", "cfg": "MCLimitFanin", "workers": 4, "timeout": 900},
+               {"module": "MCLoops", "cfg": "MCLimitFanout", "workers": 4, "timeout": 900},
+               {"module": "MCLoops", "cfg": "MCInsertRegs", "workers": 4, "timeout": 900},
+               {"module": "MCFas", "cfg": "MCFas", "workers": 4, "timeout": 900}],
         "shards": 8 if q else 16,
         "negctl": 12,
     }
@@ -117,7 +120,8 @@ def run_case(case, ctx):
                 r = cg.tx.insert_registers(c, case["k"])
     except Exception as e:  # recorded, judged by the specification
         exc = type(e).__name__
-    ev = {"kind": case["op"], "k": case["k"], "c": case["c"], "exc": exc, "r": proj(r) if r is not None else {}}
+    ev = {"kind": case["op"], "k": case["k"], "c": case["c"], "exc": exc, "r": proj(r) if r is not None else {},
+          "latch": bool(case.get("latch"))}
     if case["op"] == "insert_registers":
         ev["rt"] = {}
         if r is not None:
